@@ -1,0 +1,355 @@
+//go:build verif
+
+// Contracts for the column package, checked by /verif/govc (see /verif/DESIGN.md).
+package column
+
+import (
+	"github.com/kelindar/column/commit"
+)
+
+//@ inline binary.
+//@ inline bitmap.
+//@ unroll commit.(*Buffer).writeOffset#0 5
+
+// vShortDelta restricts the Apply lemmas to the two shortest encodings of the offset (next-neighbour flag and one
+// varint byte) inside the current block. What Apply reads of an operation - kind, offset, value window, the header
+// byte before it - is the same for every encoding; that is the round-trip statement proved for all encodings in
+// package commit (C05), so nothing is lost for the offsets, values and storage states quantified over here.
+func vShortDelta(last int32, idx uint32, cur, chunk commit.Chunk) bool {
+	return cur == chunk && idx >= uint32(last) && idx-uint32(last) < 128
+}
+
+// One operation through a numeric column (C01, C09, C11): for every column storage state, every buffer state, every
+// offset of the block, every value and every (deterministic) user merge function, applying the run that holds exactly
+// the operation the real writer appended stores the value bit for bit at the decoded position, sets / clears the
+// presence bit, merges with the stored value, rewrites the merge as a put of the result, and changes nothing else.
+// sel: 0 = put through the column's own writer closure, 1 = merge, 2 = delete, 3 = insert marker, 4 = skip.
+func vApplyNumeric[T comparable](col Column, nc *chunks[T], chs chunks[T], chunk commit.Chunk, buf []byte, last int32, cur commit.Chunk, s int, sel uint8,
+	idx uint32, v T, zero T, merge func(a, b T) T, write func(b *commit.Buffer, idx uint32, v T), put func(b *commit.Buffer, op commit.OpType, idx uint32, v T), get func(r *commit.Reader) T) {
+	vAssume(int(chunk) < len(chs) && len(chs[chunk].fill) == chunkSize/64 && len(chs[chunk].data) == chunkSize)
+	vAssume(idx < 1<<31 && commit.ChunkAt(idx) == chunk && last >= 0 && 0 <= s && s <= len(buf) && sel <= 4 && merge != nil && vShortDelta(last, idx, cur, chunk))
+	*nc = chs
+	fill, data := chs[chunk].fill, chs[chunk].data
+	o := idx - chunk.Min()
+	oldFill := append([]uint64(nil), fill...)
+	oldData := append([]T(nil), data...)
+	b := commit.VBuffer(buf, last, cur)
+	oldLen := len(buf)
+	switch sel {
+	case 0:
+		write(b, idx, v)
+	case 1:
+		put(b, commit.Merge, idx, v)
+	case 2:
+		b.PutOperation(commit.Delete, idx)
+	case 3:
+		b.PutOperation(commit.Insert, idx)
+	default:
+		put(b, commit.Skip, idx, v)
+	}
+	r := commit.VReaderAt(b, s, oldLen, last)
+	col.Apply(chunk, r)
+	vAssert("consumed", commit.VAtEnd(r))
+	switch sel {
+	case 0:
+		vAssert("put", vBit(fill, o) && vSame(data[o], v))
+	case 1:
+		vAssert("merge-sets-presence", vBit(fill, o))
+		vAssert("merge-present", !vBit(oldFill, o) || vSame(data[o], merge(oldData[o], v)))
+		vAssert("merge-absent", vBit(oldFill, o) || vSame(data[o], merge(zero, v)))
+		r2 := commit.VReaderAt(b, s, oldLen, last)
+		vAssert("merge-rewritten-as-put", r2.Next() && r2.Type == commit.Put && r2.Index() == idx && vSame(get(r2), data[o]) && commit.VAtEnd(r2))
+	case 2:
+		vAssert("delete", !vBit(fill, o))
+		vAssert("delete-keeps-data", vSame(data[o], oldData[o]))
+	default:
+		vAssert("other-op", vBit(fill, o) == vBit(oldFill, o) && vSame(data[o], oldData[o]))
+	}
+	vAssert("frame-fill", vForall(0, chunkSize, func(j int) bool { return uint32(j) == o || vBit(fill, uint32(j)) == vBit(oldFill, uint32(j)) }))
+	vAssert("frame-data", vForall(0, chunkSize, func(j int) bool { return uint32(j) == o || vSame(data[j], oldData[j]) }))
+}
+
+//@ lemma props=C01,C09,C11 mode=paths
+func vLemmaApplyInt(chs chunks[int], chunk commit.Chunk, buf []byte, last int32, cur commit.Chunk, s int, sel uint8, idx uint32, v int, merge func(a, b int) int) {
+	col := makeInts(WithMerge(merge)).(*numericColumn[int])
+	vApplyNumeric[int](col, &col.chunks, chs, chunk, buf, last, cur, s, sel, idx, v, 0, merge, col.write,
+		func(b *commit.Buffer, op commit.OpType, idx uint32, v int) { b.PutInt(op, idx, v) }, func(r *commit.Reader) int { return r.Int() })
+}
+
+//@ lemma props=C01,C09,C11 mode=paths
+func vLemmaApplyInt16(chs chunks[int16], chunk commit.Chunk, buf []byte, last int32, cur commit.Chunk, s int, sel uint8, idx uint32, v int16, merge func(a, b int16) int16) {
+	col := makeInt16s(WithMerge(merge)).(*numericColumn[int16])
+	vApplyNumeric[int16](col, &col.chunks, chs, chunk, buf, last, cur, s, sel, idx, v, 0, merge, col.write,
+		func(b *commit.Buffer, op commit.OpType, idx uint32, v int16) { b.PutInt16(op, idx, v) }, func(r *commit.Reader) int16 { return r.Int16() })
+}
+
+//@ lemma props=C01,C09,C11 mode=paths
+func vLemmaApplyInt32(chs chunks[int32], chunk commit.Chunk, buf []byte, last int32, cur commit.Chunk, s int, sel uint8, idx uint32, v int32, merge func(a, b int32) int32) {
+	col := makeInt32s(WithMerge(merge)).(*numericColumn[int32])
+	vApplyNumeric[int32](col, &col.chunks, chs, chunk, buf, last, cur, s, sel, idx, v, 0, merge, col.write,
+		func(b *commit.Buffer, op commit.OpType, idx uint32, v int32) { b.PutInt32(op, idx, v) }, func(r *commit.Reader) int32 { return r.Int32() })
+}
+
+//@ lemma props=C01,C09,C11,C17 mode=paths
+func vLemmaApplyInt64(chs chunks[int64], chunk commit.Chunk, buf []byte, last int32, cur commit.Chunk, s int, sel uint8, idx uint32, v int64, merge func(a, b int64) int64) {
+	col := makeInt64s(WithMerge(merge)).(*numericColumn[int64])
+	vApplyNumeric[int64](col, &col.chunks, chs, chunk, buf, last, cur, s, sel, idx, v, 0, merge, col.write,
+		func(b *commit.Buffer, op commit.OpType, idx uint32, v int64) { b.PutInt64(op, idx, v) }, func(r *commit.Reader) int64 { return r.Int64() })
+}
+
+//@ lemma props=C01,C09,C11 mode=paths
+func vLemmaApplyUint(chs chunks[uint], chunk commit.Chunk, buf []byte, last int32, cur commit.Chunk, s int, sel uint8, idx uint32, v uint, merge func(a, b uint) uint) {
+	col := makeUints(WithMerge(merge)).(*numericColumn[uint])
+	vApplyNumeric[uint](col, &col.chunks, chs, chunk, buf, last, cur, s, sel, idx, v, 0, merge, col.write,
+		func(b *commit.Buffer, op commit.OpType, idx uint32, v uint) { b.PutUint(op, idx, v) }, func(r *commit.Reader) uint { return r.Uint() })
+}
+
+//@ lemma props=C01,C09,C11 mode=paths
+func vLemmaApplyUint16(chs chunks[uint16], chunk commit.Chunk, buf []byte, last int32, cur commit.Chunk, s int, sel uint8, idx uint32, v uint16, merge func(a, b uint16) uint16) {
+	col := makeUint16s(WithMerge(merge)).(*numericColumn[uint16])
+	vApplyNumeric[uint16](col, &col.chunks, chs, chunk, buf, last, cur, s, sel, idx, v, 0, merge, col.write,
+		func(b *commit.Buffer, op commit.OpType, idx uint32, v uint16) { b.PutUint16(op, idx, v) }, func(r *commit.Reader) uint16 { return r.Uint16() })
+}
+
+//@ lemma props=C01,C09,C11 mode=paths
+func vLemmaApplyUint32(chs chunks[uint32], chunk commit.Chunk, buf []byte, last int32, cur commit.Chunk, s int, sel uint8, idx uint32, v uint32, merge func(a, b uint32) uint32) {
+	col := makeUint32s(WithMerge(merge)).(*numericColumn[uint32])
+	vApplyNumeric[uint32](col, &col.chunks, chs, chunk, buf, last, cur, s, sel, idx, v, 0, merge, col.write,
+		func(b *commit.Buffer, op commit.OpType, idx uint32, v uint32) { b.PutUint32(op, idx, v) }, func(r *commit.Reader) uint32 { return r.Uint32() })
+}
+
+//@ lemma props=C01,C09,C11 mode=paths
+func vLemmaApplyUint64(chs chunks[uint64], chunk commit.Chunk, buf []byte, last int32, cur commit.Chunk, s int, sel uint8, idx uint32, v uint64, merge func(a, b uint64) uint64) {
+	col := makeUint64s(WithMerge(merge)).(*numericColumn[uint64])
+	vApplyNumeric[uint64](col, &col.chunks, chs, chunk, buf, last, cur, s, sel, idx, v, 0, merge, col.write,
+		func(b *commit.Buffer, op commit.OpType, idx uint32, v uint64) { b.PutUint64(op, idx, v) }, func(r *commit.Reader) uint64 { return r.Uint64() })
+}
+
+//@ lemma props=C01,C09,C11 mode=paths
+func vLemmaApplyFloat32(chs chunks[float32], chunk commit.Chunk, buf []byte, last int32, cur commit.Chunk, s int, sel uint8, idx uint32, v float32, merge func(a, b float32) float32) {
+	col := makeFloat32s(WithMerge(merge)).(*numericColumn[float32])
+	vApplyNumeric[float32](col, &col.chunks, chs, chunk, buf, last, cur, s, sel, idx, v, 0, merge, col.write,
+		func(b *commit.Buffer, op commit.OpType, idx uint32, v float32) { b.PutFloat32(op, idx, v) }, func(r *commit.Reader) float32 { return r.Float32() })
+}
+
+//@ lemma props=C01,C09,C11 mode=paths
+func vLemmaApplyFloat64(chs chunks[float64], chunk commit.Chunk, buf []byte, last int32, cur commit.Chunk, s int, sel uint8, idx uint32, v float64, merge func(a, b float64) float64) {
+	col := makeFloat64s(WithMerge(merge)).(*numericColumn[float64])
+	vApplyNumeric[float64](col, &col.chunks, chs, chunk, buf, last, cur, s, sel, idx, v, 0, merge, col.write,
+		func(b *commit.Buffer, op commit.OpType, idx uint32, v float64) { b.PutFloat64(op, idx, v) }, func(r *commit.Reader) float64 { return r.Float64() })
+}
+
+// One operation through a bool column (C01): true sets bit `offset` of the single bitmap, false / delete clears it,
+// every other kind and every other bit is untouched.
+//
+//@ lemma props=C01,C11 mode=paths
+func vLemmaApplyBool(data []uint64, chunk commit.Chunk, buf []byte, last int32, cur commit.Chunk, s int, sel uint8, idx uint32) {
+	vAssume(idx < 1<<31 && commit.ChunkAt(idx) == chunk && last >= 0 && 0 <= s && s <= len(buf) && sel <= 4 && vShortDelta(last, idx, cur, chunk))
+	vAssume(int(idx>>6) < len(data))
+	col := &columnBool{data: data}
+	old := append([]uint64(nil), data...)
+	b := commit.VBuffer(buf, last, cur)
+	oldLen := len(buf)
+	switch sel {
+	case 0:
+		b.PutBool(idx, true)
+	case 1:
+		b.PutBool(idx, false)
+	case 2:
+		b.PutOperation(commit.Delete, idx)
+	case 3:
+		b.PutOperation(commit.Insert, idx)
+	default:
+		b.PutOperation(commit.Skip, idx)
+	}
+	r := commit.VReaderAt(b, s, oldLen, last)
+	col.Apply(chunk, r)
+	vAssert("consumed", commit.VAtEnd(r))
+	switch sel {
+	case 0:
+		vAssert("true", vBit(data, idx) && col.Contains(idx))
+	case 1, 2:
+		vAssert("false-or-delete", !vBit(data, idx) && !col.Contains(idx))
+	default:
+		vAssert("other-op", vBit(data, idx) == vBit(old, idx))
+	}
+	vAssert("frame", vForall(0, len(data)*64, func(j int) bool { return uint32(j) == idx || vBit(data, uint32(j)) == vBit(old, uint32(j)) }))
+	vAssert("length", len(col.data) == len(old))
+}
+
+// One operation through a bitmap index (C03): a put makes bit `offset` equal to what the rule answers for the reader
+// positioned on that operation, a delete clears it, other kinds and other bits are untouched.
+//
+//@ lemma props=C03 mode=paths
+func vLemmaApplyIndex(fill []uint64, chunk commit.Chunk, buf []byte, last int32, cur commit.Chunk, s int, sel uint8, idx uint32, v uint32, rule func(Reader) bool) {
+	vAssume(idx < 1<<31 && commit.ChunkAt(idx) == chunk && last >= 0 && 0 <= s && s <= len(buf) && sel <= 4 && rule != nil && vShortDelta(last, idx, cur, chunk))
+	vAssume(int(idx>>6) < len(fill))
+	col := &columnIndex{fill: fill, rule: rule}
+	old := append([]uint64(nil), fill...)
+	b := commit.VBuffer(buf, last, cur)
+	oldLen := len(buf)
+	switch sel {
+	case 0:
+		b.PutUint32(commit.Put, idx, v)
+	case 1:
+		b.PutOperation(commit.Delete, idx)
+	case 2:
+		b.PutOperation(commit.Insert, idx)
+	case 3:
+		b.PutUint32(commit.Skip, idx, v)
+	default:
+		b.PutUint32(commit.Merge, idx, v)
+	}
+	r := commit.VReaderAt(b, s, oldLen, last)
+	calls := vCallCount(rule)
+	col.Apply(chunk, r)
+	vAssert("consumed", commit.VAtEnd(r))
+	now := col.fill
+	switch sel {
+	case 0:
+		vAssert("rule-called-once", vCallCount(rule) == calls+1)
+		vAssert("put", r.Type == commit.Put && r.Index() == idx && r.Uint32() == v && vBit(now, idx) == rule(r))
+	case 1:
+		vAssert("delete", !vBit(now, idx) && vCallCount(rule) == calls)
+	default:
+		vAssert("other-op", vBit(now, idx) == vBit(old, idx) && vCallCount(rule) == calls)
+	}
+	vAssert("frame", len(now) == len(old) && vForall(0, len(old)*64, func(j int) bool { return uint32(j) == idx || vBit(now, uint32(j)) == vBit(old, uint32(j)) }))
+}
+
+// One operation through a trigger (C19): the callback is called exactly once for a put and for a delete, with the
+// reader positioned on the operation, and not at all for any other kind.
+//
+//@ lemma props=C19 mode=paths
+func vLemmaApplyTrigger(chunk commit.Chunk, buf []byte, last int32, cur commit.Chunk, s int, sel uint8, idx uint32, v uint64, clbk func(Reader)) {
+	vAssume(idx < 1<<31 && commit.ChunkAt(idx) == chunk && last >= 0 && 0 <= s && s <= len(buf) && sel <= 5 && clbk != nil && vShortDelta(last, idx, cur, chunk))
+	col := &columnTrigger{name: "x", clbk: clbk}
+	b := commit.VBuffer(buf, last, cur)
+	oldLen := len(buf)
+	switch sel {
+	case 0:
+		b.PutUint64(commit.Put, idx, v)
+	case 1:
+		b.PutOperation(commit.Delete, idx)
+	case 2:
+		b.PutOperation(commit.Insert, idx)
+	case 3:
+		b.PutUint64(commit.Skip, idx, v)
+	case 4:
+		b.PutBool(idx, true)
+	default:
+		b.PutBool(idx, false)
+	}
+	r := commit.VReaderAt(b, s, oldLen, last)
+	calls := vCallCount(clbk)
+	col.Apply(chunk, r)
+	vAssert("consumed", commit.VAtEnd(r))
+	switch sel {
+	case 0, 1, 4, 5:
+		vAssert("put-or-delete-one-call", vCallCount(clbk) == calls+1)
+		vAssert("positioned", r.Index() == idx && (sel != 0 || (r.Type == commit.Put && r.Uint64() == v)) && (sel != 1 || r.Type == commit.Delete))
+	default:
+		vAssert("other-no-call", vCallCount(clbk) == calls)
+	}
+}
+
+// One operation through a string column (C01, also the storage half of key and record columns): a put stores a
+// private copy with the same bytes, a merge stores what the merge function returns for (stored value, delta) and
+// sets the presence bit, a delete clears the bit; other kinds and other cells are untouched.
+//
+//@ lemma props=C01,C09,C11 mode=paths
+func vLemmaApplyString(chs chunks[string], chunk commit.Chunk, buf []byte, last int32, cur commit.Chunk, s int, sel uint8, idx uint32, v0 []byte, n uint16, merge func(a, b string) string) {
+	vAssume(int(chunk) < len(chs) && len(chs[chunk].fill) == chunkSize/64 && len(chs[chunk].data) == chunkSize)
+	vAssume(idx < 1<<31 && commit.ChunkAt(idx) == chunk && last >= 0 && 0 <= s && s <= len(buf) && sel <= 4 && merge != nil && vShortDelta(last, idx, cur, chunk))
+	vAssume(int(n) <= len(v0) && len(buf) < 1<<30 && commit.VSeparate(buf, v0))
+	v := v0[:n]
+	col := makeStrings(WithMerge(merge)).(*columnString)
+	col.chunks = chs
+	fill, data := chs[chunk].fill, chs[chunk].data
+	o := idx - chunk.Min()
+	oldFill := append([]uint64(nil), fill...)
+	oldData := append([]string(nil), data...)
+	b := commit.VBuffer(buf, last, cur)
+	oldLen := len(buf)
+	switch sel {
+	case 0:
+		b.PutBytes(commit.Put, idx, v)
+	case 1:
+		b.PutBytes(commit.Merge, idx, v)
+	case 2:
+		b.PutOperation(commit.Delete, idx)
+	case 3:
+		b.PutOperation(commit.Insert, idx)
+	default:
+		b.PutBytes(commit.Skip, idx, v)
+	}
+	// what the merge function is expected to be asked: (stored value, the delta as the reader exposes it)
+	rc := commit.VReaderAt(b, s, oldLen, last)
+	rc.Next()
+	var expected string
+	if sel == 1 {
+		expected = merge(oldData[o], rc.String())
+	}
+	r := commit.VReaderAt(b, s, oldLen, last)
+	col.Apply(chunk, r)
+	switch sel {
+	case 0:
+		vAssert("put", vBit(fill, o) && len(data[o]) == len(v) && vForall(0, len(v), func(i int) bool { return data[o][i] == v[i] }))
+	case 1:
+		vAssert("merge-sets-presence", vBit(fill, o))
+		vAssert("merge-present", !vBit(oldFill, o) || vSame(data[o], expected))
+	case 2:
+		vAssert("delete", !vBit(fill, o))
+	default:
+		vAssert("other-op", vBit(fill, o) == vBit(oldFill, o) && vSame(data[o], oldData[o]))
+	}
+	vAssert("frame-fill", vForall(0, chunkSize, func(j int) bool { return uint32(j) == o || vBit(fill, uint32(j)) == vBit(oldFill, uint32(j)) }))
+	vAssert("frame-data", vForall(0, chunkSize, func(j int) bool { return uint32(j) == o || vSame(data[j], oldData[j]) }))
+}
+
+// Readers of numeric storage (C01): a value is reported exactly when the presence bit is set, it is the stored
+// element, and offsets beyond the column are reported absent without touching memory.
+//
+//@ lemma props=C01,C04
+func vLemmaLoadInt16(chs chunks[int16], idx uint32) {
+	vAssume(vForall(0, len(chs), func(k int) bool { return len(chs[k].fill) == chunkSize/64 && len(chs[k].data) == chunkSize }))
+	col := &numericColumn[int16]{chunks: chs}
+	v, ok := col.load(idx)
+	chunk := commit.ChunkAt(idx)
+	o := idx - chunk.Min()
+	if int(chunk) < len(chs) {
+		vAssert("present-iff-bit", ok == vBit(chs[chunk].fill, o))
+		vAssert("value", !ok || v == chs[chunk].data[o])
+		vAssert("contains", col.Contains(idx) == ok)
+	} else {
+		vAssert("beyond-absent", !ok && v == 0)
+	}
+	f, okf := col.LoadFloat64(idx)
+	i, oki := col.LoadInt64(idx)
+	u, oku := col.LoadUint64(idx)
+	vAssert("typed-loads", okf == ok && oki == ok && oku == ok && (!ok || (i == int64(v) && u == uint64(v) && vSame(f, float64(v)))))
+}
+
+//@ lemma props=C01,C04
+func vLemmaLoadString(chs chunks[string], idx uint32) {
+	vAssume(vForall(0, len(chs), func(k int) bool { return len(chs[k].fill) == chunkSize/64 && len(chs[k].data) == chunkSize }))
+	col := &columnString{chunks: chs}
+	v, ok := col.LoadString(idx)
+	chunk := commit.ChunkAt(idx)
+	o := idx - chunk.Min()
+	if int(chunk) < len(chs) {
+		vAssert("present-iff-bit", ok == vBit(chs[chunk].fill, o))
+		vAssert("value", !ok || vSame(v, chs[chunk].data[o]))
+		vAssert("contains", col.Contains(idx) == ok)
+	} else {
+		vAssert("beyond-absent", !ok && len(v) == 0)
+	}
+}
+
+//@ lemma props=C01,C04
+func vLemmaLoadBool(data []uint64, idx uint32) {
+	col := &columnBool{data: data}
+	v, ok := col.Value(idx)
+	in := int(idx>>6) < len(data)
+	vAssert("value", ok == (in && vBit(data, idx)) && v.(bool) == ok && col.Contains(idx) == ok)
+}
